@@ -173,6 +173,48 @@ def ieeParseTable : Nat → Bytes → List (Option IeeCtx)
 def ieeUnwrapTable (c : CryptoOps) (ibkek1 ibkek2 : Bytes) (kbAddr n : Nat) (enc : Bytes) : List (Option IeeCtx) :=
   ieeParseTable n (xtsDec c (IeeCtx.word ibkek1) (IeeCtx.word ibkek2) (leEnc 16 (kbAddr / 4096)) enc)
 
+/-! ## IEE — extended engine (Phase 3): all five AES modes, the page-offset register, 16-byte granular CTR reads.
+
+ASSUMED engine semantics (the source describes none of this and no data sheet is available in the sandbox; the
+assumptions are repeated in the registry note):
+* A-PO   `IEE_REGnPO` (the `pageOffset` word of the key blob): the region is selected by the SYSTEM (physical) address
+         ("startAddr/endAddr: Physical address of encryption region" in the struct comment), the tweak / counter is formed
+         from the LOGICAL address `system address + 4 KiB · pageOffset`.
+* A-CTR  in all three CTR modes (with address binding `0x66`, without `0xAA`, keystream only `0x19`) the counter of the
+         16-byte block at logical address `L` is `KEY2[127:32] ‖ BE32(KEY2[31:0] + (L >> 4) mod 2^32)`.  SPSDK has ONE CTR
+         code path for the three modes; `C13.iee_ctr_engine_only` proves that this is the ONLY counter a CTR-type engine can
+         use if it is to read back what SPSDK writes — if the silicon forms another counter in `0xAA` / `0x19`, SPSDK's
+         output for these modes is unusable on it, which neither the source nor this check can decide. -/
+
+namespace IeeCtx
+/-- A-PO: the address tweak / counter are bound to -/
+def logical (x : IeeCtx) (a : Nat) : Nat := a + 4096 * x.pageOffset
+/-- A-CTR: the three CTR mode tags -/
+def isCtrMode (x : IeeCtx) : Bool := x.modeTag == 0x66 || x.modeTag == 0xAA || x.modeTag == 0x19
+end IeeCtx
+
+/-- CTR read of `n` consecutive 16-byte blocks stored from the (16-byte aligned) SYSTEM address `a` on, region context `x` -/
+def ieeCtrReadX (c : CryptoOps) (x : IeeCtx) (n a : Nat) (ct : Bytes) : Bytes := ieeCtrPage c x n (x.logical a) ct
+
+/-- what the core reads for the (up to 4 KiB of) page content `d` stored at the system page address `a` -/
+def ieeHwPageX (c : CryptoOps) (ctxs : List IeeCtx) (a : Nat) (d : Bytes) : Bytes :=
+  match ctxs.find? (fun x => x.hit a) with
+  | none => d
+  | some x =>
+    if x.modeTag = 0xA6 then
+      xtsDec c (IeeCtx.word (x.key1.take x.keyLen)) (IeeCtx.word (x.key2.take x.keyLen)) (leEnc 16 (x.logical a / 4096)) d
+    else if x.isCtrMode then ieeCtrReadX c x (blocksFor d.length) a d
+    else d
+
+/-- page-by-page read with an arbitrary page function (fuel = remaining length) -/
+def ieeHwReadWith (page : Nat → Bytes → Bytes) : Nat → Nat → Bytes → Bytes
+  | 0, _, _ => []
+  | f + 1, a, ct =>
+    if ct.isEmpty then [] else page a (ct.take 4096) ++ ieeHwReadWith page f (a + 4096) (ct.drop 4096)
+
+def ieeHwReadAllX (c : CryptoOps) (ctxs : List IeeCtx) (base : Nat) (ct : Bytes) : Bytes :=
+  ieeHwReadWith (ieeHwPageX c ctxs) ct.length base ct
+
 /-! ## BEE -/
 
 structure Fac where
